@@ -264,6 +264,21 @@ def st_update_merge(shape: int, x0: int, x1: int, x2: int, x3: int, y: int) -> b
     mg = Structured._merge(a, b)
     if mg._to_dict() != {"p": [x0], "q": [x1, x2], "r": [x3]}:
         return False
+    # merge depends on structure, not on object identity: the same instance twice, an equal copy, and shared substructure
+    if Structured._merge(a, a)._to_dict() != {"p": [x0, x0], "q": [x1, x1]}:
+        return False
+    if Structured._merge(a, Structured(p=[x0], q=[x1]))._to_dict() != {"p": [x0, x0], "q": [x1, x1]}:
+        return False
+    shared = Structured(u=[x2], v=[x3])
+    m2 = Structured._merge(Structured(k=shared, p=[x0]), Structured(k=shared, q=[x1]))
+    if m2._to_dict() != {"k": {"u": [x2, x2], "v": [x3, x3]}, "p": [x0], "q": [x1]}:
+        return False
+    if Structured._merge(a, b, a)._to_dict() != {"p": [x0, x0], "q": [x1, x2, x1], "r": [x3]}:
+        return False
+    if Structured._merge(a, a, merger=lambda *v: sum(len(w) for w in v))._to_dict() != {"p": 2, "q": 2}:
+        return False
+    if a._to_dict() != {"p": [x0], "q": [x1]} or shared._to_dict() != {"u": [x2], "v": [x3]}:
+        return False
     # update REPLACES the value of an existing key, whatever structure the old or the new value carries
     t = Structured(a=(x0, x1), b=Structured(x=x2, y=x3), c=x0)
     if t._update(a=(y,))._to_dict() != {"a": (y,), "b": {"x": x2, "y": x3}, "c": x0}:
